@@ -19,30 +19,32 @@ T0 = 1000000000          # the virtual clock starts here
 
 
 # ---------------------------------------------------------------- build
-def _structs(text):
+
+
+def gen_whitebox():
+    """T-gen: the private struct declarations are extracted from the iv_work.c being compiled and handed to the harness"""
+    text = open(os.path.join(common.REPO, "src", "iv_work.c")).read()
     out = []
     for name in ("work_pool_priv", "work_pool_thread"):
         m = re.search(r"struct\s+%s\s*\{.*?\n\};" % name, text, flags=re.S)
-        out.append(" ".join(re.sub(r"/\*.*?\*/", " ", m.group(0), flags=re.S).split()) if m else None)
-    return out
-
-
-def layout_check():
-    """the white-box copy of the private structs in mt_work.c must equal the declarations in the iv_work.c being compiled"""
-    src = _structs(open(os.path.join(common.REPO, "src", "iv_work.c")).read())
-    ext = open(EXT).read()
-    m = re.search(r"/\* WB-BEGIN.*?\*/(.*?)/\* WB-END \*/", ext, flags=re.S)
-    mine = _structs(m.group(1)) if m else [None, None]
-    if None in src or src != mine:
-        return "white-box layout of struct work_pool_priv/work_pool_thread in harness/mt_work.c differs from src/iv_work.c"
-    return None
+        if not m:
+            return None, f"struct {name} not found in src/iv_work.c (the white-box harness needs it)"
+        out.append(m.group(0))
+    d = os.path.join(common.BUILD, "gen")
+    os.makedirs(d, exist_ok=True)
+    path = os.path.join(d, "work_wb.h")
+    tmp = path + f".tmp{os.getpid()}"
+    with open(tmp, "w") as f:
+        f.write("/* generated from src/iv_work.c by vlib/c12.py */\n" + "\n\n".join(out) + "\n")
+    os.replace(tmp, path)
+    return path, None
 
 
 def build():
-    bad = layout_check()
+    path, bad = gen_whitebox()
     if bad:
         return False, bad
-    return common.build_mt(out=HARNESS, extra_sources=[EXT], extra_wraps=WRAPS)
+    return common.build_mt(out=HARNESS, extra_sources=[EXT], extra_wraps=WRAPS, extra=[f'-DMT_WORK_WB_FILE="{path}"'])
 
 
 # ---------------------------------------------------------------- scenario generator
@@ -412,6 +414,7 @@ def oracle(log, scenario=(), want=("C12", "C13")):
     item = {}                    # x -> dict(pool, sub, begun, ended, thread)
     worker_pool = {}             # thread -> pool
     hook = {}                    # thread -> [starts, stops]
+    hook_inst = {}               # thread -> pool instance named by its thread_start
     dead_creator, dead_thread, dead_joined = {}, {}, set()
     lib_created = {}             # thread -> creator (threads created through iv_thread_create)
     exited, joined = set(), set()
@@ -511,6 +514,13 @@ def oracle(log, scenario=(), want=("C12", "C13")):
                 dead_joined.add(int(w[1].split(":")[1]))
         elif k == "HOOK":
             h = hook.setdefault(t, [0, 0])
+            # the hooks and the cookie are those the pool was created with: a worker's start and stop name the same pool instance
+            # even when the caller's struct iv_work_pool has been put and re-used for a new pool in between
+            if w[1] == "start":
+                hook_inst[t] = w[2] if len(w) > 2 else None
+            elif len(w) > 2 and hook_inst.get(t) is not None and w[2] != hook_inst[t]:
+                bad("hook:wrong-pool", f"line {n}: worker T{t} ran thread_start with the cookie of pool {hook_inst[t]} but thread_stop with the cookie of pool {w[2]} "
+                    "(the hooks/cookie of a released pool were read through the caller's re-used struct iv_work_pool)")
             if w[1] == "start":
                 h[0] += 1
                 if h[0] > 1:
